@@ -182,6 +182,10 @@ def op_case_coq(st, cut, g, want):
     return "(%s, %s, %s, %s, %s, %s, %s)" % (coq_z(i), coq_z(first), coq_z(last), mode, aggs, coq_list(chunks), wrows)
 
 
+PRIORITY = ["C08-time-window-agg-store", "C08-desc-first-last", "C08-multicolumn-first-last-across-series", "C08-fill-previous-desc",
+            "C08-desc-selector-tie", "C08-tie-order", "C08-limit-prune-time-range",
+            "C08-fill-split-path", "C08-fill-previous-multicolumn", "C08-fill-null-count-fastpath", "C08-fill-previous-single-row-group"]
+
 FINDING_TEXT = {
     "C08-fill-split-path": "GROUP BY time() with fill(): answer depends on inner_chunk_size once the filled rows exceed 2x the chunk size "
                            "(FillTransform split path; descending loses data, fill(previous) leaks across groups)",
@@ -317,8 +321,10 @@ def main(ck):
             ids = explain(c, f)
             live = [i for i in ids if ck.match_finding(i)]
             if live:
-                for i in live[:1]:
-                    known_counts[i] = known_counts.get(i, 0) + 1
+                # a failure matching several signatures is charged to the finding that is not repaired by fix.patch /
+                # fix_desc_split.patch, so that on a patched tree the repaired findings' lines disappear
+                i = min(live, key=lambda x: PRIORITY.index(x) if x in PRIORITY else -1)
+                known_counts[i] = known_counts.get(i, 0) + 1
             else:
                 unexplained.append((c, f, ids))
     for i in sorted(known_counts):
